@@ -53,7 +53,7 @@ func init() {
 				c.Floor("C13.R5", "durable-streams store field writers", n, 3)
 				checkNoRetryTransport(c, pd, "C13.R5")
 			}
-			c.Floor("C13.R2", "error handler call sites", c.Stats["persist_error_handler_sites"], 2)
+			c.Floor("C13.R2", "error handler call sites", c.Stats["persist_error_handler_sites"], 1)
 			c.Floor("C13.R1", "path classes", c.Stats["persist_path_classes"], 5)
 			c.Assume = append(c.Assume, "the store's Append either stores the whole record or nothing")
 		},
